@@ -42,7 +42,7 @@ def jobs(tier, seed):
 
 def emit(eng, payload_fn, res, why, checks=('helpers',), label=1, prefer=None):
     if (prefer is not None and eng.check3(prefer) == 'sat') or eng.check3() == 'sat':
-        pl = payload_fn(eng.solver.model())
+        pl = payload_fn(eng.model())
         res['cex'].append({'kind': 'construct', 'payload': pl.hex(), 'labelmsm': label, 'checks': list(checks), 'why': why, 'dedup': why[:60]})
     else:
         res['harness_errors'].append("no model for " + why)
@@ -138,7 +138,7 @@ def run_msm(spec, res):
             else:
                 res['discharged'] += 1
                 if len(res['witnesses']) < 2 and eng.check3() == 'sat':
-                    res['witnesses'].append({'kind': 'construct', 'payload': d.payload_from_model(eng.solver.model()).hex(), 'checks': ['helpers', 'total']})
+                    res['witnesses'].append({'kind': 'construct', 'payload': d.payload_from_model(eng.model()).hex(), 'checks': ['helpers', 'total']})
             res.count('msm_paths')
         res.absorb_engine(eng)
     for pl in structs.random_msm_cases(ident, 7, 4):
@@ -185,7 +185,7 @@ def run_msm(spec, res):
 
 def emit_seq(eng, da, db, res, why):
     if eng.check3() == 'sat':
-        m = eng.solver.model()
+        m = eng.model()
         res['cex'].append({'kind': 'construct', 'history': [da.payload_from_model(m).hex()], 'history_helpers': True,
                            'payload': db.payload_from_model(m).hex(), 'checks': ['helpers'], 'why': why, 'dedup': f"seq:{da.ident}:{why[:40]}"})
     else:
@@ -253,7 +253,7 @@ def run_harm(spec, res):
         else:
             res['discharged'] += 1
             if len(res['witnesses']) < 1 and (eng.check3(distinct) == 'sat' or eng.check3() == 'sat'):
-                res['witnesses'].append({'kind': 'construct', 'payload': d.payload_from_model(eng.solver.model()).hex(), 'checks': ['helpers', 'total']})
+                res['witnesses'].append({'kind': 'construct', 'payload': d.payload_from_model(eng.model()).hex(), 'checks': ['helpers', 'total']})
         res.count('harm_paths')
     res.absorb_engine(eng)
 
